@@ -171,7 +171,9 @@ class GenDef:
         self.funcs = collect_funcs(items)
         self.is_bool = all(isinstance(r, bool) for _, r in paths)
         self.npaths = len(paths)
-        self.single = len(paths) == 1 and not self.is_bool
+        self.single = len(paths) == 1 and not self.is_bool and outnames != "list"
+        if outnames == "list":
+            self.outnames = None
 
     def signature(self, name, rty):
         fp = "".join(" (%s : %s)" % (f, FUNC_TYPE[f]) for f in self.funcs)
